@@ -37,8 +37,13 @@ CLAIMS = {
             "Coq (PLFacts/PLProps): in the page-lifecycle machine every accepted event preserves the invariant and no accepted commit "
             "writes into, frees into the free set, or releases a page of a registered reader's snapshot, for every history "
             "(reader_frozen); the real library's hook event stream must be accepted by the extracted machine on every run, and every "
-            "open reader is re-dumped after every step against the reference.",
-            "the contract (c1-c8) is a premise validated on each real commit (decoded files + hooks), not derived from the B+tree code",
+            "open reader is re-dumped after every step against the reference. Engine model with read transactions (EngineR.v, "
+            "EngineReaders.snapshot_isolation_init): in every history of transactions / reader begins / reader ends from the empty "
+            "database every open reader's pages are unchanged on the current disk and its root still means the contents it began on; "
+            "the library's release bound is safe, bound + 2 is refuted by a computed history.",
+            "for the page-lifecycle machine the contract (c1-c8) is a premise validated on each real commit; the engine model derives it "
+            "from the B+tree code's transliteration, which is tied to the library by the page-for-page correspondence (now also on "
+            "histories with open readers)",
             "Coq invariant proof over an executable acceptor + hook-driven trace acceptance", "6/C03, App. E"),
     "C04": ("proof",
             "Coq (ConcFacts): in the thread-level transition system of the lock protocol, for any number of threads and every "
@@ -62,7 +67,9 @@ CLAIMS = {
             "partition, key order within and across pages, separator bounds, element bounds; DB::check must agree.",
             "CheckFacts.inv_check_partition proves what an inv_check verdict means (reachable ++ free-list run ++ free ids = a duplicate-free "
             "permutation of [2, num_pages)) for every file; the "
-            "engine is not proved to satisfy the contract, it is validated per commit",
+            "(engine model: EngineNoLeak.run_txs_exact_init proves the exact partition -- nothing shared, nothing leaked, free-list record = "
+            "the unused pages -- for every reachable state; EngineReadFull: the checker's tree half accepts every engine file image); the Rust "
+            "engine itself is not proved to satisfy the contract, it is validated per commit",
             "Coq invariant + proved-codec decoder run on every real committed file", "6/C05"),
     "C06": ("proof",
             "Coq (PLFacts.accept_BeginW_same / accept_Rollback_same; Spec): beginning and abandoning a writer is the identity on the "
@@ -73,12 +80,16 @@ CLAIMS = {
     "C07": ("translation_validation",
             "Inside write transactions the full read API is compared with the extracted reference after every single mutation; the "
             "cursor machine itself is proved (C08) for every view without empty branches, including views with empty leaves, but the "
-            "overlay (nodes shadowing pages) is not modelled in Coq, so the in-transaction half rests on the differential runs.",
+            "in-transaction half is proved for POINT READS on the engine model (EngineTxReads.tx_reads: after any prefix of a transaction's "
+            "operations a lookup anywhere in the nested bucket tree answers what the reference answers; EngineTop.read_own_put / "
+            "read_own_delete) and rests on the differential runs for scans / seeks / ranges over the overlay, which Coq does not model.",
             "reference = coq/spec/Spec.v extracted", "differential against the extracted reference; cursor theorems for the view", "6/C07"),
     "C08": ("proof",
             "Coq (CursorFacts, SearchFacts, SeekFacts): cursor_all, cursor_end / never panics, seek_spec, range_spec (all nine bound "
             "kinds), filters, get_spec for every well-formed tree; the extracted cursor machine is run on the decoded committed files and "
-            "must agree call-for-call with the library (tens of thousands of calls per run); legacy machine refuted.",
+            "must agree call-for-call with the library (tens of thousands of calls per run); legacy machine refuted; on every tree the engine model "
+            "commits, after any history and for any bucket, get / scan / range / seek equal the reference (EngineReadBridge.history_read, "
+            "EngineReadFull.history_read_full).",
             "binary search is Rust's slice::binary_search_by transliterated by hand", "Coq theorems + exact model-vs-library correspondence", "6/C08, App. H"),
     "C10": ("proof",
             "Coq (FreelistFacts, PLFacts, PLProps): the allocator returns the first run of n consecutive free ids and fails only when no "
